@@ -337,54 +337,59 @@ Record cstate := mkSt {
   s_curshape : bool; s_curpos : bool; s_curchanged : bool; s_curmoved : bool;
   s_lastrect : bool; s_supmsg : bool; s_supenc : bool; s_srvid : bool;
   s_palm : bool;
-  s_req : list rect4           (* rectangles or-ed into requestedRegion since the last update *)
+  s_req : list rect4;          (* rectangles or-ed into requestedRegion since the last update *)
+  s_odd : bool                 (* client format is 24 bpp: accepted, but which encoders then serve the client is not mirrored *)
 }.
 
 Definition init_state (c : cfg) : cstate :=
   mkSt c04_st_ProtocolVersion false 0 (cf_w c) (cf_h c) [] (-1) false false 452984839
-       false false false false false false false false false false false false [].
+       false false false false false false false false false false false false [] false.
 (* 452984839 = 0x1B000007: initial extClipboardUserCap (rfbNewTCPOrUDPClient) *)
 
 Definition set_closed (s : cstate) : cstate :=
   mkSt (s_state s) true (s_minor s) (s_sw s) (s_sh s) (s_scaled s) (s_pref s) (s_ready s) (s_extclip s) (s_extcap s)
        (s_newfb s) (s_extds s) (s_pending s) (s_curshape s) (s_curpos s) (s_curchanged s) (s_curmoved s)
-       (s_lastrect s) (s_supmsg s) (s_supenc s) (s_srvid s) (s_palm s) (s_req s).
+       (s_lastrect s) (s_supmsg s) (s_supenc s) (s_srvid s) (s_palm s) (s_req s) (s_odd s).
 Definition set_state (s : cstate) (st : Z) : cstate :=
   mkSt st (s_closed s) (s_minor s) (s_sw s) (s_sh s) (s_scaled s) (s_pref s) (s_ready s) (s_extclip s) (s_extcap s)
        (s_newfb s) (s_extds s) (s_pending s) (s_curshape s) (s_curpos s) (s_curchanged s) (s_curmoved s)
-       (s_lastrect s) (s_supmsg s) (s_supenc s) (s_srvid s) (s_palm s) (s_req s).
+       (s_lastrect s) (s_supmsg s) (s_supenc s) (s_srvid s) (s_palm s) (s_req s) (s_odd s).
 Definition set_minor (s : cstate) (m : Z) : cstate :=
   mkSt (s_state s) (s_closed s) m (s_sw s) (s_sh s) (s_scaled s) (s_pref s) (s_ready s) (s_extclip s) (s_extcap s)
        (s_newfb s) (s_extds s) (s_pending s) (s_curshape s) (s_curpos s) (s_curchanged s) (s_curmoved s)
-       (s_lastrect s) (s_supmsg s) (s_supenc s) (s_srvid s) (s_palm s) (s_req s).
+       (s_lastrect s) (s_supmsg s) (s_supenc s) (s_srvid s) (s_palm s) (s_req s) (s_odd s).
+Definition set_odd (s : cstate) (b : bool) : cstate :=
+  mkSt (s_state s) (s_closed s) (s_minor s) (s_sw s) (s_sh s) (s_scaled s) (s_pref s) (s_ready s) (s_extclip s) (s_extcap s)
+       (s_newfb s) (s_extds s) (s_pending s) (s_curshape s) (s_curpos s) (s_curchanged s) (s_curmoved s)
+       (s_lastrect s) (s_supmsg s) (s_supenc s) (s_srvid s) (s_palm s) (s_req s) b.
 Definition set_ready (s : cstate) : cstate :=
   mkSt (s_state s) (s_closed s) (s_minor s) (s_sw s) (s_sh s) (s_scaled s) (s_pref s) true (s_extclip s) (s_extcap s)
        (s_newfb s) (s_extds s) (s_pending s) (s_curshape s) (s_curpos s) (s_curchanged s) (s_curmoved s)
-       (s_lastrect s) (s_supmsg s) (s_supenc s) (s_srvid s) (s_palm s) (s_req s).
+       (s_lastrect s) (s_supmsg s) (s_supenc s) (s_srvid s) (s_palm s) (s_req s) (s_odd s).
 Definition set_extclip (s : cstate) (b : bool) (cap : Z) : cstate :=
   mkSt (s_state s) (s_closed s) (s_minor s) (s_sw s) (s_sh s) (s_scaled s) (s_pref s) (s_ready s) b cap
        (s_newfb s) (s_extds s) (s_pending s) (s_curshape s) (s_curpos s) (s_curchanged s) (s_curmoved s)
-       (s_lastrect s) (s_supmsg s) (s_supenc s) (s_srvid s) (s_palm s) (s_req s).
+       (s_lastrect s) (s_supmsg s) (s_supenc s) (s_srvid s) (s_palm s) (s_req s) (s_odd s).
 Definition set_pending (s : cstate) (b : bool) : cstate :=
   mkSt (s_state s) (s_closed s) (s_minor s) (s_sw s) (s_sh s) (s_scaled s) (s_pref s) (s_ready s) (s_extclip s) (s_extcap s)
        (s_newfb s) (s_extds s) b (s_curshape s) (s_curpos s) (s_curchanged s) (s_curmoved s)
-       (s_lastrect s) (s_supmsg s) (s_supenc s) (s_srvid s) (s_palm s) (s_req s).
+       (s_lastrect s) (s_supmsg s) (s_supenc s) (s_srvid s) (s_palm s) (s_req s) (s_odd s).
 Definition set_palm (s : cstate) : cstate :=
   mkSt (s_state s) (s_closed s) (s_minor s) (s_sw s) (s_sh s) (s_scaled s) (s_pref s) (s_ready s) (s_extclip s) (s_extcap s)
        (s_newfb s) (s_extds s) (s_pending s) (s_curshape s) (s_curpos s) (s_curchanged s) (s_curmoved s)
-       (s_lastrect s) (s_supmsg s) (s_supenc s) (s_srvid s) true (s_req s).
+       (s_lastrect s) (s_supmsg s) (s_supenc s) (s_srvid s) true (s_req s) (s_odd s).
 Definition set_scale (s : cstate) (w h : Z) (l : list (Z * Z)) : cstate :=
   mkSt (s_state s) (s_closed s) (s_minor s) w h l (s_pref s) (s_ready s) (s_extclip s) (s_extcap s)
        (s_newfb s) (s_extds s) true (s_curshape s) (s_curpos s) (s_curchanged s) (s_curmoved s)
-       (s_lastrect s) (s_supmsg s) (s_supenc s) (s_srvid s) (s_palm s) (s_req s).
+       (s_lastrect s) (s_supmsg s) (s_supenc s) (s_srvid s) (s_palm s) (s_req s) (s_odd s).
 Definition set_scaled_list (s : cstate) (l : list (Z * Z)) : cstate :=
   mkSt (s_state s) (s_closed s) (s_minor s) (s_sw s) (s_sh s) l (s_pref s) (s_ready s) (s_extclip s) (s_extcap s)
        (s_newfb s) (s_extds s) (s_pending s) (s_curshape s) (s_curpos s) (s_curchanged s) (s_curmoved s)
-       (s_lastrect s) (s_supmsg s) (s_supenc s) (s_srvid s) (s_palm s) (s_req s).
+       (s_lastrect s) (s_supmsg s) (s_supenc s) (s_srvid s) (s_palm s) (s_req s) (s_odd s).
 Definition add_req (s : cstate) (r : rect4) (pend : bool) : cstate :=
   mkSt (s_state s) (s_closed s) (s_minor s) (s_sw s) (s_sh s) (s_scaled s) (s_pref s) true (s_extclip s) (s_extcap s)
        (s_newfb s) (s_extds s) pend (s_curshape s) (s_curpos s) (s_curchanged s) (s_curmoved s)
-       (s_lastrect s) (s_supmsg s) (s_supenc s) (s_srvid s) (s_palm s) (s_req s ++ [r]).
+       (s_lastrect s) (s_supmsg s) (s_supenc s) (s_srvid s) (s_palm s) (s_req s ++ [r]) (s_odd s).
 
 Definition closeP (s : cstate) : prog cstate := Em Close (Ret (set_closed s)).
 (* read with the standard failure path *)
@@ -463,7 +468,7 @@ Section Handlers.
   Variable o_corr_f : Z -> Z -> Z -> Z -> Z -> Z -> Z -> Z -> rect4.   (* fw fh tw th x y w h *)
   Variable o_scale : Z -> Z -> Z -> Z.                                (* from to v *)
   (* zlib: result of the inflate calls of rfbProcessExtendedServerCutTextData on (flags, data) *)
-  Inductive zres := ZBad | ZUnknown | ZSteps (l : list (Z * bool)).  (* per format: size, body ok *)
+  Inductive zres := ZBad | ZSteps (l : list (Z * bool)).  (* per format: size (-1: header not inflated), body ok *)
   Variable o_inflate : Z -> list Z -> zres.
   (* screen->passwordCheck on the 16-byte response *)
   Variable o_pw : list Z -> bool.
@@ -496,7 +501,8 @@ Section Handlers.
 
   Definition proto_version (s : cstate) : prog cstate :=
     rd c04_sz_ProtocolVersion s (fun pv =>
-      match parse_version pv with
+      Em (Index c04_sizeof_pv c04_sz_ProtocolVersion)               (* pv[sz_rfbProtocolVersionMsg] = 0 *)
+      (match parse_version pv with
       | None => closeP s
       | Some (major, minor) =>
           if negb (major =? c04_proto_major) then closeP s else
@@ -507,7 +513,7 @@ Section Handlers.
           else
             (* rfbSendSecurityTypeList: count byte + one type *)
             wr_or_close 2 s (Ret (set_state s c04_st_SecurityType))
-      end).
+      end)).
 
   Definition security_type (s : cstate) : prog cstate :=
     rd 1 s (fun b =>
@@ -541,13 +547,14 @@ Section Handlers.
       if negb (bpp_ok (cf_bpp c)) then closeP s
       else if negb (bpp_ok bpp) then closeP s
       else if negb tc && negb (bpp =? 8) then closeP s
-      else if bpp =? 24 then
-        (* accepted (LIBVNCSERVER_ALLOW24BPP), but which encoders then serve the client is not mirrored *)
-        Em Opaque (Ret s)
-      else if negb tc then
-        (* rfbSetClientColourMapBGR233 *)
-        wr_or_close (c04_sz_SetColourMapEntries + 256 * 3 * 2) s (Ret s)
-      else Ret s).
+      else
+        (* 24 bpp is accepted (LIBVNCSERVER_ALLOW24BPP); which encoders then serve the client is not mirrored:
+           the update still computes its rectangle count (divisions included), only the count is unknown *)
+        let s := set_odd s (bpp =? 24) in
+        if negb tc then
+          (* rfbSetClientColourMapBGR233 *)
+          wr_or_close (c04_sz_SetColourMapEntries + 256 * 3 * 2) s (Ret s)
+        else Ret s).
 
   Definition h_FixColourMapEntries (s : cstate) : prog cstate :=
     rd_msg c04_sz_FixColourMapEntries s (fun _ => closeP s).
@@ -569,7 +576,7 @@ Section Handlers.
     mkSt (s_state s) (s_closed s) (s_minor s) (s_sw s) (s_sh s) (s_scaled s) pref (s_ready s)
          (e_extclip e) (s_extcap s) (e_newfb e) (e_extds e) (s_pending s) (e_curshape e) curpos
          (e_curchanged e) (e_curmoved e) (e_lastrect e) (e_supmsg e) (e_supenc e) (e_srvid e)
-         (s_palm s) (s_req s).
+         (s_palm s) (s_req s) (s_odd s).
 
   Definition enc_with (e : encst) pref newfb extds curshape curpos curchanged curmoved lastrect supmsg supenc srvid extclip :=
     mkEnc pref newfb extds curshape curpos curchanged curmoved lastrect supmsg supenc srvid extclip.
@@ -615,9 +622,9 @@ Section Handlers.
           then let e' := enc_with e (e_pref e) (e_newfb e) (e_extds e) (e_curshape e) (e_curpos e) (e_curchanged e) (e_curmoved e) (e_lastrect e) (e_supmsg e) (e_supenc e) (e_srvid e) true in
                Wr 16 (fun ok => if ok then next e' else closeP (enc_finish s last e'))
           else next e
-        else if (4294967264 <=? enc) && (enc <=? 4294967273) then
+        else if (c04_e_QualityLevel0 <=? enc) && (enc <=? c04_e_QualityLevel9) then
           (* rfbEncodingQualityLevel0..9: tight2turbo_qual[enc & 0x0F], tight2turbo_subsamp[..] *)
-          Em (Index 10 (enc mod 16)) (next e)
+          Em (Index (Z.of_nat (length c04_turbo_qual)) (enc mod 16)) (next e)
         else next e)
     end.
 
@@ -686,19 +693,22 @@ Section Handlers.
             if len <? 4 then closeP s
             else
               let flags := be (firstn 4 str) in
-              if testbit flags 24 then                                   (* Caps *)
+              Em (Index len 3)                                           (* memcpy(&flags, str, 4) *)
+              (if testbit flags 24 then                                  (* Caps *)
                 let formats := popcount16 flags in
                 if negb (formats =? 0) && negb (len =? 4 + formats * 4) then closeP (set_extclip s (s_extclip s) flags)
-                else Ret (set_extclip s (if formats =? 0 then false else testbit flags 0) flags)
+                else if testbit flags 0
+                     then Em (Index len 7)                               (* memcpy(&maxUnsolicited, str + 4, 4) *)
+                             (Ret (set_extclip s (if formats =? 0 then false else true) flags))
+                     else Ret (set_extclip s false flags)
               else if testbit flags 25 then Ret s                        (* Request: the server holds no data *)
               else if testbit flags 26 then Ret s                        (* Peek *)
               else if testbit flags 28 then                              (* Provide *)
                 match o_inflate flags (skipn 4 str) with
                 | ZBad => closeP s
-                | ZUnknown => Em Opaque (Ret s)
                 | ZSteps steps => ext_provide s steps (testbit flags 0)
                 end
-              else Ret s
+              else Ret s)
           else if cf_view c then Ret s
           else Em (Callback (CbCut len (bsum str))) (Ret s)))).
 
@@ -716,6 +726,12 @@ Section Handlers.
   Definition ft_reads_buffer (ctype cparam : Z) : bool :=
     ((ctype =? 1) && (cparam =? 1)) || (ctype =? 3) || (ctype =? 8) || (ctype =? 5) || (ctype =? 10).
 
+  (* what follows the reads of a file-transfer message (filesystem work, replies) changes nothing the model
+     tracks and closes the client only when a reply cannot be written: against a peer that reads, the model
+     goes on; against one that stopped reading it is not known which of the content types write - Opaque *)
+  Definition ft_rest (s : cstate) : prog cstate :=
+    Wr 1 (fun ok => if ok then Ret s else Em Opaque (Ret s)).
+
   Definition h_FileTransfer (s : cstate) : prog cstate :=
     rd_msg c04_sz_FileTransfer s (fun m =>
       let ctype := nthb m 0 in let cparam := nthb m 1 in
@@ -725,9 +741,10 @@ Section Handlers.
         if len >? c04_int_max then closeP s
         else if len =? 0 then Ret s
         else Em (Alloc (len + 1))
+               (Em (Index (len + 1) len)                            (* buffer[length] = 0 *)
                (rd len s (fun _ =>
-                  if ctype =? 8 then rd 4 s (fun _ => Em Opaque (Ret s)) else Em Opaque (Ret s)))
-      else Em Opaque (Ret s)).
+                  if ctype =? 8 then rd 4 s (fun _ => ft_rest s) else ft_rest s)))
+      else ft_rest s).
 
   Definition pad4 (v : Z) : Z := if v mod 4 =? 0 then v else v + 4 - v mod 4.
   Fixpoint mem2 (w h : Z) (l : list (Z * Z)) : bool :=
@@ -752,7 +769,8 @@ Section Handlers.
     let s := if palm then set_palm s else s in
     rd_msg c04_sz_SetScale s (fun m =>
       let f := nthb m 0 in
-      if f =? 0 then closeP s else do_scale s f).
+      if f =? 0 then closeP s
+      else Em (Div (cf_w c) f) (Em (Div (cf_h c) f) (do_scale s f))).   (* width/scale, height/scale *)
 
   Definition h_Xvp (s : cstate) : prog cstate :=
     rd_msg c04_sz_Xvp s (fun m =>
@@ -879,7 +897,43 @@ Section Handlers.
 
   Inductive upd := UNone | UCount (n : Z) | UUnknown.
 
-  (* update region = the single requested rectangle (whole screen modified by the application) *)
+  (* what rfbSendFramebufferUpdate computes for ONE rectangle (x, y, w, h) of the update region: the
+     correction to the scaled screen, the rectangle count of the preferred encoding (divisions), the
+     first and last pixel of the rectangle buffer of RRE / CoRRE.  [k] receives the count (None: Tight,
+     whose count is rfbNumCodedRectsTight, C03's translated function). *)
+  Definition rect_prog {B : Type} (s : cstate) (q : rect4) (k : option Z -> prog B) : prog B :=
+    let '(x, y, w, h) := q in
+    let '(x', y', w', h') :=
+        if scaled s then o_corr (cf_w c) (cf_h c) (s_sw s) (s_sh s) x y w h else (x, y, w, h) in
+    let p := s_pref s in
+    if p =? c04_e_RRE then
+      (* rfbSendRectEncodingRRE copies the w' x h' rectangle into a buffer sized for the scaled screen and
+         getBgColour reads its pixel 0 *)
+      Em (Index (s_sw s * s_sh s) 0) (Em (Index (s_sw s * s_sh s) (w' * h' - 1)) (k (Some 1)))
+    else if p =? c04_e_CoRRE then
+      Em (Div (w' - 1) c04_corre_max) (Em (Div (h' - 1) c04_corre_max)
+        (Em (Index (s_sw s * s_sh s) 0) (Em (Index (s_sw s * s_sh s) (w' * h' - 1))
+          (k (Some ((Z.quot (w' - 1) c04_corre_max + 1) * (Z.quot (h' - 1) c04_corre_max + 1)))))))
+    else if p =? c04_e_Ultra then
+      Em (Div (max_size c04_ultra_max_rect w') w')
+        (Em (Div (h' - 1) (Z.quot (max_size c04_ultra_max_rect w') w'))
+           (k (Some (Z.quot (h' - 1) (Z.quot (max_size c04_ultra_max_rect w') w') + 1))))
+    else if p =? c04_e_Zlib then
+      Em (Div (max_size c04_zlib_max_rect w') w')
+        (Em (Div (h' - 1) (Z.quot (max_size c04_zlib_max_rect w') w'))
+           (k (Some (Z.quot (h' - 1) (Z.quot (max_size c04_zlib_max_rect w') w') + 1))))
+    else if (p =? c04_e_Tight) || (p =? c04_e_TightPng) then k None
+    else k (Some 1).
+
+  (* the same for every rectangle of a list (whatever decomposition of the update region) *)
+  Fixpoint rects_prog (s : cstate) (l : list rect4) : prog unit :=
+    match l with
+    | [] => Ret tt
+    | q :: t => rect_prog s q (fun _ => rects_prog s t)
+    end.
+
+  (* update region = the single requested rectangle (whole screen modified by the application): this is
+     what the correspondence run compares (announced rectangle count) *)
   Definition update_prog (s : cstate) : prog (cstate * upd) :=
     if s_closed s || negb (s_state s =? c04_st_Normal) then Ret (s, UNone) else
     match s_req s with
@@ -894,8 +948,6 @@ Section Handlers.
       if s_newfb s && s_pending s then
         Wr 4 (fun ok => if ok then Ret (set_pending s false, UCount 1)
                         else Em Close (Ret (set_closed (set_pending s false), UNone))) else
-      let '(x', y', w', h') :=
-          if scaled s then o_corr (cf_w c) (cf_h c) (s_sw s) (s_sh s) x y w h else (x, y, w, h) in
       let extra := (if s_curshape s && s_curchanged s && s_ready s then 1 else 0) +
                    (if s_curpos s && s_curmoved s then 1 else 0) +
                    (if s_supmsg s then 1 else 0) + (if s_supenc s then 1 else 0) + (if s_srvid s then 1 else 0) in
@@ -903,30 +955,23 @@ Section Handlers.
                      (s_extclip s) (s_extcap s) (s_newfb s) (s_extds s) (s_pending s) (s_curshape s) (s_curpos s)
                      (if s_curshape s && s_ready s then false else s_curchanged s)
                      (if s_curpos s then false else s_curmoved s)
-                     (s_lastrect s) false false false (s_palm s) [] in
-      (* the update is written to the socket: a peer that stopped reading gets nothing and is closed *)
-      let fin n := Wr 4 (fun ok => if ok then Ret (s', UCount (u16 (n + extra)))
-                                   else Em Close (Ret (set_closed s', UNone))) in
-      let p := s_pref s in
-      if p =? c04_e_RRE then
-        (* rfbSendRectEncodingRRE copies the rectangle into a buffer sized for the scaled screen and
-           getBgColour reads its pixel 0 *)
-        Em (Index (s_sw s * s_sh s) 0) (fin 1)
-      else if p =? c04_e_CoRRE then
-        Em (Index (s_sw s * s_sh s) 0) (Em (Div (w' - 1) c04_corre_max) (Em (Div (h' - 1) c04_corre_max)
-          (fin ((Z.quot (w' - 1) c04_corre_max + 1) * (Z.quot (h' - 1) c04_corre_max + 1)))))
-      else if p =? c04_e_Ultra then
-        Em (Div (max_size c04_ultra_max_rect w') w')
-          (Em (Div (h' - 1) (Z.quot (max_size c04_ultra_max_rect w') w'))
-             (fin (Z.quot (h' - 1) (Z.quot (max_size c04_ultra_max_rect w') w') + 1)))
-      else if p =? c04_e_Zlib then
-        Em (Div (max_size c04_zlib_max_rect w') w')
-          (Em (Div (h' - 1) (Z.quot (max_size c04_zlib_max_rect w') w'))
-             (fin (Z.quot (h' - 1) (Z.quot (max_size c04_zlib_max_rect w') w') + 1)))
-      else if (p =? c04_e_Tight) || (p =? c04_e_TightPng) then Ret (s', UUnknown)
-      else fin 1
+                     (s_lastrect s) false false false (s_palm s) [] (s_odd s) in
+      rect_prog s (x, y, w, h) (fun n =>
+        match n with
+        | None => Ret (s', UUnknown)
+        | Some n =>
+            (* 24-bpp clients: the count is computed, but not every encoder then sends *)
+            if s_odd s then Ret (s', UUnknown) else
+            (* the update is written to the socket: a peer that stopped reading gets nothing and is closed *)
+            Wr 4 (fun ok => if ok then Ret (s', UCount (u16 (n + extra)))
+                            else Em Close (Ret (set_closed s', UNone)))
+        end)
     | _ => Ret (s, UUnknown)
     end.
+
+  (* every rectangle requested since the last update, one by one: the statement about updates of sessions
+     with several requests *)
+  Definition update_all (s : cstate) (r : reader) := run c (rects_prog s (s_req s)) r.
 
   Definition update (s : cstate) (r : reader) := run c (update_prog s) r.
 
